@@ -1138,7 +1138,11 @@ impl DB {
         }
 
         let mut was_memtable_reused = false;
-        if self.options.reuse_log_files() && is_last_wal && num_compactions == 0 {
+        // A WAL that ends in a torn write is not appended to. Its contents are flushed to a table
+        // file below and the database continues with a fresh WAL.
+        let is_wal_reusable = !wal_reader.has_partial_tail();
+        if self.options.reuse_log_files() && is_last_wal && num_compactions == 0 && is_wal_reusable
+        {
             log::info!("Reusing WAL file: {wal_path:?}.", wal_path = &wal_path);
             drop(wal_reader);
             if let Ok(wal_writer) =
